@@ -78,6 +78,8 @@ enum Act {
     Advance,
     /// the peer writes a frame that answers nobody: an EVENT on stream -1 (first time) / a frame on stream -2 (second time)
     Unsolicited,
+    /// more than the orphan age threshold (1 s) of virtual time passes after a caller was dropped with its response owed
+    AdvanceSecond,
 }
 
 #[derive(Default, Debug)]
@@ -91,6 +93,7 @@ struct Run {
     refused: u64,
     splits: u64,
     unsolicited: u64,
+    old_orphan: bool,
 }
 
 fn run_one(cfg: &Cfg, ch: &mut Chooser) -> (Result<(), String>, Run) {
@@ -129,6 +132,7 @@ async fn drive(cfg: &Cfg, ch: &mut Chooser, w: &mut World, run: &mut Run) -> Res
     let mut steps = 0;
     let mut advances = 0;
     let mut unsolicited_sent = 0u8;
+    let mut second_advanced = false;
     loop {
         steps += 1;
         if steps > 400 {
@@ -202,6 +206,9 @@ async fn drive(cfg: &Cfg, ch: &mut Chooser, w: &mut World, run: &mut Run) -> Res
         if cfg.events && partial.is_none() && unsolicited_sent < 2 && (next_start > 0) {
             alts.push((Act::Unsolicited, env(1)));
         }
+        if cfg.prefill > 0 && !second_advanced && w.callers.iter().any(|c| c.cancelled_while_owed && !c.answered_fully) {
+            alts.push((Act::AdvanceSecond, env(1)));
+        }
         let has_free = alts.iter().any(|(_, c)| *c == 0);
         if !has_free {
             break; // nothing can happen any more without a cancellation: terminal
@@ -272,6 +279,12 @@ async fn drive(cfg: &Cfg, ch: &mut Chooser, w: &mut World, run: &mut Run) -> Res
                 }
                 w.mark_answered(pos);
                 w.deliver(&rest, &format!("rest of the response on stream {stream}"));
+            }
+            Act::AdvanceSecond => {
+                second_advanced = true;
+                run.old_orphan = true;
+                vasync::advance(hook::orphan_limits().1 + Duration::from_millis(100)).await;
+                w.log("time +1.1s (the abandoned request's stream id is now an old orphan)".into());
             }
             Act::Unsolicited => {
                 let f = if unsolicited_sent == 0 { event_frame(9) } else { Frame::response(-2, OP_RESULT, b"nobody") };
@@ -362,7 +375,7 @@ fn configs(thorough: bool) -> Vec<Cfg> {
     }
     // exhaustion through the real writer path: the router's own map pre-filled by 32768-j real allocate calls
     for j in if thorough { vec![0usize, 1, 2] } else { vec![1usize] } {
-        v.push(Cfg { n: 2, coalescing: "yield".into(), read_chunk: 0, capacity: 0, prefill: 32768 - j, bound: if thorough { 2 } else { 1 }, big: 0, events: false, write_chunk: 0, big_req: 0, all_cuts: false });
+        v.push(Cfg { n: 2, coalescing: "yield".into(), read_chunk: 0, capacity: 0, prefill: 32768 - j, bound: 2, big: 0, events: false, write_chunk: 0, big_req: 0, all_cuts: false });
         if thorough {
             v.push(Cfg { n: 3, coalescing: "yield".into(), read_chunk: 0, capacity: 0, prefill: 32768 - j, bound: 1, big: 0, events: false, write_chunk: 0, big_req: 0, all_cuts: false });
         }
@@ -429,6 +442,9 @@ fn main() {
             r_ref.counters.add("responses_to_cancelled_callers", run.orphan_answers);
             r_ref.counters.add("callers_refused_no_stream_id", run.refused);
             r_ref.counters.add("split_responses", run.splits);
+            if run.old_orphan {
+                r_ref.counters.add("executions_with_an_old_orphan(clock +1.1s after an abandonment)", 1);
+            }
             r_ref.counters.add("event_or_negative_stream_frames_interleaved", run.unsolicited);
             if !run.signature.is_empty() {
                 signatures.lock().unwrap().insert(run.signature.clone());
@@ -492,7 +508,7 @@ fn main() {
     if sigs.len() < 2 && r.violation_count() == 0 {
         vcore::machinery_error("vacuous: fewer than 2 distinct outcome signatures");
     }
-    r.set_rule("E-ASYNC/E-DFS on the real Connection::router with real send_request callers over a scripted stream. Per configuration (n callers x write coalescing off/yield/1ms x short reads x submit-channel capacity x pre-filled id space x a 32767..100000-byte response body for caller 0) every choice sequence within the deviation bound is executed; free choices: which woken task is lowest (default), start next caller / answer any held request whole at a quiescent point (so all response orders and all submission-response interleavings are covered at bound 0); 1 deviation each: poll another woken task, any environment action while a task is woken, split a response (after every header byte 1..8 / after the header / inside the body), interleave an EVENT or a negative-stream frame (control-connection configurations), drop a caller's future. evaluations = executions (also reported as transitions). distinct_nontrivial = executions in which a caller was dropped while the peer owed its response and the peer answered that stream afterwards (cancellation notice and response in flight for the same stream). traces_validated_against_impl = executions replayed a second time with the full observation trace compared (determinism audit of select!-branch randomness), plus every violation.");
+    r.set_rule("E-ASYNC/E-DFS on the real Connection::router with real send_request callers over a scripted stream. Per configuration (n callers x write coalescing off/yield/1ms x short reads x submit-channel capacity x pre-filled id space x a 32767..100000-byte response body for caller 0) every choice sequence within the deviation bound is executed; free choices: which woken task is lowest (default), start next caller / answer any held request whole at a quiescent point (so all response orders and all submission-response interleavings are covered at bound 0); 1 deviation each: poll another woken task, any environment action while a task is woken, split a response (after every header byte 1..8 / after the header / inside the body), interleave an EVENT or a negative-stream frame (control-connection configurations), drop a caller's future, let 1.1 s of virtual time pass after an abandonment (pre-filled configurations). evaluations = executions (also reported as transitions). distinct_nontrivial = executions in which a caller was dropped while the peer owed its response and the peer answered that stream afterwards (cancellation notice and response in flight for the same stream). traces_validated_against_impl = executions replayed a second time with the full observation trace compared (determinism audit of select!-branch randomness), plus every violation.");
     r.assume("the default schedule polls the lowest woken task id (router first); every other order costs deviations, so coverage is 'all schedules within the bound', not all schedules");
     r.finish();
 }
